@@ -698,10 +698,18 @@ func (r *Real) RunOps() []string {
 			out = append(out, r.dumpState()...)
 			out = append(out, r.fixLog(r.log.lines)...)
 			if so != "" {
-				out = append(out, "STDOUT "+hx(so))
+				if mask {
+					out = append(out, "STDOUT MASKED")
+				} else {
+					out = append(out, "STDOUT "+hx(so))
+				}
 			}
 			if se != "" {
-				out = append(out, "STDERR "+hx(se))
+				if mask {
+					out = append(out, "STDERR MASKED")
+				} else {
+					out = append(out, "STDERR "+hx(se))
+				}
 			}
 		case "model":
 			out = append(out, r.dumpModel()...)
